@@ -248,19 +248,19 @@ theorem planPre_length_le (L k : Nat) (rs : Ranges) :
 
 /-! ## the public plans -/
 
-/-- **C15 refinement**: the explicit-stack iterator `ranges_pre_order_chunks_iter_ref` yields
-exactly the recursive plan; in particular it never reaches the `debug_assert!` / `unwrap()`
-panics and `PrePartial.fuelFor` calls of `next` exhaust it. -/
-theorem planPre_refines (size bs ml : Nat) (q : Ranges) (hs : size ≤ 2 ^ 63) (hbs : bs ≤ 10) :
-    Tree.prePartialChunks ⟨size, bs⟩ q ml = some (plan ⟨size, bs⟩ ml q) := by
+/-- the iterator started on a query yields the recursive plan with ANY fuel that is at least the
+length of the plan; it never reaches the `debug_assert!` / `unwrap()` panics -/
+theorem new_run_eq (size bs ml : Nat) (q : Ranges) (hs : size ≤ 2 ^ 63) (hbs : bs ≤ 10)
+    (fuel : Nat) (hf : (plan ⟨size, bs⟩ ml q).length ≤ fuel) :
+    PrePartial.run fuel (PrePartial.new ⟨size, bs⟩ q ml) = some (plan ⟨size, bs⟩ ml q) := by
   have g := shifted_geo size bs hs hbs
   obtain ⟨hh, hroot, hlt⟩ := rootLevel_spec size bs hs
-  unfold Tree.prePartialChunks PrePartial.new plan
-  simp only
+  unfold PrePartial.new
+  unfold plan at hf ⊢
+  simp only at hf ⊢
   cases q with
   | nil =>
-    have := run_eq (ml := ml) (root := (Tree.shifted ⟨size, bs⟩).1) g
-      (PrePartial.fuelFor ⟨size, bs⟩) [] [] (by simp) (by simp)
+    have := run_eq (ml := ml) (root := (Tree.shifted ⟨size, bs⟩).1) g fuel [] [] (by simp) (by simp)
     simpa [st] using this
   | cons a q =>
     have hv : ∀ e ∈ [((Tree.shifted ⟨size, bs⟩).1, a :: q)],
@@ -276,16 +276,27 @@ theorem planPre_refines (size bs ml : Nat) (q : Ranges) (hs : size ≤ 2 ^ 63) (
       conv => lhs; arg 6; arg 1; rw [hroot]
       exact planId_nodeOf g hlt _
     have := run_eq (ml := ml) (root := (Tree.shifted ⟨size, bs⟩).1) g
-      (PrePartial.fuelFor ⟨size, bs⟩) [((Tree.shifted ⟨size, bs⟩).1, a :: q)] [] hv
-      (by
-        simp only [List.nil_append, List.flatMap_cons, List.flatMap_nil, List.append_nil, hp]
-        have := planPre_length_le (size := size) (bs := bs) (ml := ml)
-          (filled := (Tree.shifted ⟨size, bs⟩).2) (root := (Tree.shifted ⟨size, bs⟩).1)
-          (rootLevel ⟨size, bs⟩) 0 (a :: q)
-        unfold PrePartial.fuelFor
-        omega)
+      fuel [((Tree.shifted ⟨size, bs⟩).1, a :: q)] [] hv
+      (by simpa only [List.nil_append, List.flatMap_cons, List.flatMap_nil, List.append_nil, hp]
+            using hf)
     simp only [List.nil_append, List.flatMap_cons, List.flatMap_nil, List.append_nil, hp] at this
     simpa [st] using this
+
+/-- at most three items per node of the shifted tree -/
+theorem plan_length_le (t : Tree) (ml : Nat) (q : Ranges) :
+    (plan t ml q).length ≤ 3 * t.shifted.2 :=
+  planPre_length_le _ _ _
+
+/-- **C15 refinement**: the explicit-stack iterator `ranges_pre_order_chunks_iter_ref` yields
+exactly the recursive plan; in particular it never reaches the `debug_assert!` / `unwrap()`
+panics and `PrePartial.fuelFor` calls of `next` exhaust it. -/
+theorem planPre_refines (size bs ml : Nat) (q : Ranges) (hs : size ≤ 2 ^ 63) (hbs : bs ≤ 10) :
+    Tree.prePartialChunks ⟨size, bs⟩ q ml = some (plan ⟨size, bs⟩ ml q) := by
+  unfold Tree.prePartialChunks
+  apply new_run_eq size bs ml q hs hbs
+  have := plan_length_le ⟨size, bs⟩ ml q
+  unfold PrePartial.fuelFor
+  omega
 
 /-- the response plan (`ResponseIter`): block size 0 tree, `min_full_level = bs`, ranges erased -/
 theorem response_refines (size bs : Nat) (q : Ranges) (hs : size ≤ 2 ^ 63) :
